@@ -84,7 +84,7 @@ def shards(tier):
     out += [("words", s) for s in seq_shards(SIGMA_WORDS, 7 if tier == "quick" else 8, min_len=6 if tier == "quick" else 7, prefix_len=3)]
     out += [("class", s) for s in seq_shards(SIGMA_CLASS, 5 if tier == "quick" else 6)]
     out += [("patterns", n, first) for n in range(5, (8 if tier == "quick" else 10)) for first in range(3)]
-    out += [("mw", 0), ("mw", 1), ("mw", 2), ("leak", 0)]
+    out += [("mw", 0), ("mw", 1), ("mw", 2), ("leak", 0), ("deep", 0)]
     out += [("ball", b, k, st, n) for (_, b, k, st, n) in spaces.ball_shards(len(BASES), 2 if tier == "quick" else 3)]
     return out
 
@@ -421,8 +421,55 @@ def check_middleware(which, acc):
                     acc.violation({"oracle": "error_block_through_parse_string"}, {"case": case, "observed": [repr(b)[:200] for b in lib.blocks], "expected": "MiddlewareErrorBlock retaining entry k1, entry k2 split"})
 
 
+DEEP = [10, 100, 500, 990, 1000, 1010, 2000, 5000]
+
+
+def check_deep(acc):
+    """Brace groups nested n deep (around and beyond the interpreter's default recursion limit) as a word, inside a word
+    and in every comma section; the same with one closing brace missing: an invalid name, reported as such."""
+    for n in DEEP:
+        g = "{" * n + "x" + "}" * n
+        cases = [
+            ("AA " + g, (["AA"], [], [g], [])),
+            ("bb" + g + "c DD", (["bb" + g + "c"], [], ["DD"], [])),
+            (g + "y, Jr, " + g, ([g], [], [g + "y"], ["Jr"])),
+            ("AA bb " + g + " DD", (["AA"], ["bb"], [g, "DD"], [])),  # (a brace group has no case: von ends at 'bb')
+        ]
+        for name, exp in cases:
+            case = {"deep": n, "form": name.replace(g, "<G>")}
+            acc.trace()
+            acc.case(nontrivial_key=("deep", n, case["form"]))
+            acc.count("deep_names")
+            try:
+                p = parse_single_name_into_parts(name, strict=True)
+                got = (p.first, p.von, p.last, p.jr)
+            except Exception as ex:
+                acc.violation({"oracle": "valid_name_parts", "what": "raised " + type(ex).__name__, "depth": "deep"}, {"case": case, "observed": repr(ex)[:200], "expected": "the parts"}, size=n)
+                continue
+            acc.step(("deep", n), case["form"], hash(repr(got)))
+            if got != exp:
+                acc.violation({"oracle": "valid_name_parts", "what": "parts", "depth": "deep"}, {"case": case, "observed": [[w.replace(g, "<G>") for w in part] for part in got], "expected": [[w.replace(g, "<G>") for w in part] for part in exp]}, size=n)
+            # one closing brace short: invalid (strict) / an error block through the middleware, never another exception
+            bad = name[: name.rindex("}")] + name[name.rindex("}") + 1 :]
+            try:
+                parse_single_name_into_parts(bad, strict=True)
+                acc.violation({"oracle": "unbalanced_name_is_invalid", "depth": "deep"}, {"case": case, "observed": "parsed", "expected": "InvalidNameError"}, size=n)
+            except InvalidNameError:
+                pass
+            except Exception as ex:
+                acc.violation({"oracle": "unbalanced_name_is_invalid", "depth": "deep", "exception": type(ex).__name__}, {"case": case, "observed": repr(ex)[:200], "expected": "InvalidNameError"}, size=n)
+            try:
+                out = SplitNameParts().transform(Library([Entry("a", "k", [Field("author", ["CC DD", bad])])]))
+                if [type(b).__name__ for b in out.blocks] != ["MiddlewareErrorBlock"]:
+                    acc.violation({"oracle": "invalid_name_becomes_error_block", "depth": "deep"}, {"case": case, "observed": [type(b).__name__ for b in out.blocks], "expected": ["MiddlewareErrorBlock"]}, size=n)
+            except Exception as ex:
+                acc.violation({"oracle": "error_block_not_exception", "exception": type(ex).__name__, "depth": "deep"}, {"case": case, "observed": repr(ex)[:200], "expected": "MiddlewareErrorBlock"}, size=n)
+
+
 def run_shard(shard, tier, acc):
     kind = shard[0]
+    if kind == "deep":
+        return check_deep(acc)
     if kind == "seq":
         for toks in seq_iter(SIGMA, shard[1]):
             check_name("".join(toks), acc, toks)
@@ -476,6 +523,8 @@ def finish(acc, tier):
 
 
 def replay(case, acc):
+    if "deep" in case:
+        return check_deep(acc)
     if "leak" in case:
         return run_shard(("leak", 0), "quick", acc)
     if "name_key_twice" in case:
